@@ -6,7 +6,8 @@
   Model: `Rngs.Hc128` (transliteration of rand_hc/src/hc128.rs).  Proof libraries:
   `Rngs.Lib.Hc128Basic` (abstraction relation, one step), `Hc128Gen` (index table of the
   unrolled block, `generate`, `sixteen_steps`), `Hc128Init` (key/IV expansion, set-up),
-  `Hc128Block` (composition, `BlockRng::next_u32`).
+  `Hc128Block` (composition, `BlockRng::next_u32`), `Hc128Packed` (a bit-packed evaluator
+  proved equal to `Wu.keystream`, used only to kernel-check the paper's test vectors).
 
   All theorems hold for every `seed : List U8`; bytes beyond the end of a short list read
   as 0 (`byteAt`), so no length hypothesis is needed (Rust seeds have exactly 32 bytes).
@@ -16,6 +17,7 @@
   (`core_tables` gives `counter = 16 b mod 2^64`; 1024 ∣ 2^64).
 -/
 import Rngs.Lib.Hc128Block
+import Rngs.Lib.Hc128Packed
 namespace Rngs.C02
 open Rngs Rngs.Spec
 
@@ -105,14 +107,41 @@ theorem nextU32_stream (seed : List U8) (k : Nat) :
 /-- the hypothesis of `generate_block` is satisfiable (the buffer of a fresh `BlockRng`) -/
 example : (Array.replicate 16 (0 : U32)).size = 16 := by simp
 
-/-- the three 32-byte seeds of the test vectors of the paper, and their key / IV -/
-example : key (List.replicate 32 0) = #v[0, 0, 0, 0] ∧ iv (List.replicate 32 0) = #v[0, 0, 0, 0] := by
+/-! ## anchors: the test vectors of the paper, kernel-checked, on the specification
+    (`Hc128R.Packed.test_vector_*`) and hence, by `nextU32_stream`, on the model -/
+
+theorem key_iv_vector_1 : key (List.replicate 32 0) = #v[0, 0, 0, 0] ∧
+    iv (List.replicate 32 0) = #v[0, 0, 0, 0] := by
   decide
-example : key (List.replicate 16 0 ++ 1 :: List.replicate 15 0) = #v[0, 0, 0, 0] ∧
+
+theorem key_iv_vector_2 : key (List.replicate 16 0 ++ 1 :: List.replicate 15 0) = #v[0, 0, 0, 0] ∧
     iv (List.replicate 16 0 ++ 1 :: List.replicate 15 0) = #v[1, 0, 0, 0] := by
   decide
-example : key (0x55 :: List.replicate 31 0) = #v[0x55, 0, 0, 0] ∧
+
+theorem key_iv_vector_3 : key (0x55 :: List.replicate 31 0) = #v[0x55, 0, 0, 0] ∧
     iv (0x55 :: List.replicate 31 0) = #v[0, 0, 0, 0] := by
   decide
+
+/-- test vector 1 of the paper (key = 0, IV = 0): first four `next_u32` results of the model -/
+theorem model_test_vector_1 :
+    (List.range 4).map (fun k => (Hc128.nextU32 (rngAfter (List.replicate 32 0) k)).1) =
+      [0x73150082#32, 0x3bfd03a0#32, 0xfb2fd77f#32, 0xaa63af0e#32] := by
+  simp only [nextU32_stream, key_iv_vector_1.1, key_iv_vector_1.2]
+  exact Hc128R.Packed.test_vector_1
+
+/-- test vector 2 of the paper (key = 0, IV = 1) -/
+theorem model_test_vector_2 :
+    (List.range 4).map (fun k =>
+        (Hc128.nextU32 (rngAfter (List.replicate 16 0 ++ 1 :: List.replicate 15 0) k)).1) =
+      [0xc01893d5#32, 0xb7dbe958#32, 0x8f65ec98#32, 0x64176604#32] := by
+  simp only [nextU32_stream, key_iv_vector_2.1, key_iv_vector_2.2]
+  exact Hc128R.Packed.test_vector_2
+
+/-- test vector 3 of the paper (key = 0x55, IV = 0) -/
+theorem model_test_vector_3 :
+    (List.range 4).map (fun k => (Hc128.nextU32 (rngAfter (0x55 :: List.replicate 31 0) k)).1) =
+      [0x518251a4#32, 0x04b4930a#32, 0xb02af931#32, 0x0639f032#32] := by
+  simp only [nextU32_stream, key_iv_vector_3.1, key_iv_vector_3.2]
+  exact Hc128R.Packed.test_vector_3
 
 end Rngs.C02
